@@ -171,6 +171,12 @@ def variants(case, real, opts):
             out.append(("list", ops, lambda: X.mprod(mats, modes), dt, s))
         else:
             out.append(("single", ops, lambda: X.mprod(mats[0], modes[0]), dt, s))
+    elif op == "mprod_rep":
+        m = case["p"] - 1
+        n = S["I"][m]
+        Q1 = fill.dense_fill([n, n], S["f"] + 20, S["cx"], dt)
+        Q2 = fill.dense_fill([(n % 3) + 1, n], S["f"] + 21, S["cx"], dt)
+        out.append(("list", ops, lambda: X.mprod([Q1, Q2], [m, m]), dt, s))
     elif op in ("ones", "zeros"):
         shp = [int(n) for n in S["I"]] if S["k"] == "tt" else [(int(m), int(n)) for m, n in zip(S["I"], S["J"])]
         fn = tt.ones if op == "ones" else tt.zeros
